@@ -29,7 +29,7 @@ NOALLOC_DIR = os.path.join(runner.HARNESS, "noalloc")
 NOALLOC_BIN = os.path.join(runner.target_dir(os.path.join(NOALLOC_DIR, "target")), "release", "hnoalloc")
 
 # depth of the chain family (c); see ASSUMPTIONS if ever lowered
-CHAIN_DEPTHS = {"quick": (10, 100, 1000), "thorough": (10, 100, 1000, 10000)}
+CHAIN_DEPTHS = {"quick": (10, 100, 130, 260, 1000, 1030, 2050, 4100), "thorough": (10, 100, 130, 260, 1000, 1030, 2050, 4100, 10000, 33000, 66000)}
 
 _RULE = (
     "dec skip <enc(tree) ++ suffix> #n=<len enc> #iid=<indefinite array/map somewhere inside a definite one>, on two builds of the real "
